@@ -34,7 +34,7 @@ TOL = 1e-9
 
 
 def describe(tier):
-    return {"steps": STEPS + IRR, "max_steps": 3 if tier == "quick" else 4, "offset_schemes": OFFS,
+    return {"steps": STEPS + IRR, "max_steps": 3 if tier == "quick" else 4, "offset_schemes": OFFS + ["int (integer-typed vertex arrays)"], "query_order": "ascending then descending on one lanelet object",
             "graphs": "all digraphs n<=4" + ("" if tier == "quick" else ", n=5 with <=6 edges"),
             "length_classes": ["all 10", "lanelet 2 has length 25"], "ranges": RANGES, "exhaustive": True}
 
@@ -60,6 +60,9 @@ def _verts(steps, start=(0.0, 0.0)):
 def _bounds(center, scheme):
     o = (-1.5, 2.0)
     left, right = [], []
+    if scheme == "int":
+        # integer offsets: together with a lattice centre line all three polylines can be given as integer-typed arrays
+        return [(x - 2, y + 3) for x, y in center], [(x + 2, y - 3) for x, y in center]
     for i, (x, y) in enumerate(center):
         if scheme == "const":
             fl, fr = 1.0, 1.0
@@ -72,10 +75,10 @@ def _bounds(center, scheme):
     return left, right
 
 
-def _mk_lanelet(center, left, right, lid, pred=None, succ=None):
+def _mk_lanelet(center, left, right, lid, pred=None, succ=None, dtype=float):
     import numpy as np
     from commonroad.scenario.lanelet import Lanelet
-    return Lanelet(np.array(left, dtype=float), np.array(center, dtype=float), np.array(right, dtype=float), lid,
+    return Lanelet(np.array(left, dtype=dtype), np.array(center, dtype=dtype), np.array(right, dtype=dtype), lid,
                    predecessor=list(pred or []), successor=list(succ or []))
 
 
@@ -116,7 +119,7 @@ def _check_interp(steps, scheme, res, case_extra=None):
     case = {"k": "interp", "steps": [list(s) for s in steps], "scheme": scheme}
     res.states += 1
     try:
-        ll = _mk_lanelet(center, left, right, 1)
+        ll = _mk_lanelet(center, left, right, 1, dtype=int if scheme == "int" else float)
         dist = [float(x) for x in ll.distance]
     except Exception as e:
         res.violation(f"C20|distance|raises:{type(e).__name__}", repr(e), case)
@@ -133,9 +136,13 @@ def _check_interp(steps, scheme, res, case_extra=None):
     svals = set([0.0, cum[-1]])
     for i, L in enumerate(seg):
         svals.update([cum[i], cum[i] + L / 2, cum[i] + L / 4, cum[i] + 3 * L / 4])
-    for s in sorted(svals):
+    # one lanelet object answers all queries: ascending arc lengths first, then the same ones descending (an answer must not depend on
+    # the queries made before it)
+    for qi, s in enumerate(sorted(svals) + sorted(svals, reverse=True)[1:]):
         res.evals += 1; res.transitions += 1
         where = "end" if s in (0.0, cum[-1]) else ("vertex" if any(abs(s - c) < 1e-12 for c in cum) else "interior")
+        if qi >= len(svals):
+            where += "(descending)"
         if len(seg) >= 2:
             res.nontrivial += 1
         exp, _ = _walker(center, left, right, s)
@@ -304,7 +311,7 @@ def run_unit(unit, tier):
     if k == "interp":
         pl = _polylines(unit["ms"])[unit["lo"]:unit["hi"]]
         for steps in pl:
-            for scheme in OFFS:
+            for scheme in OFFS + ["int"]:
                 _check_interp(steps, scheme, res)
             res.sample({"k": "interp", "steps": steps}, 2)
     elif k == "merge":
